@@ -488,5 +488,54 @@ class RewriteAllReferences(Target):
         return []
 
 
-TARGETS = [RewriteAllReferences(), GetAllLoopedIds(), NextIterationKeepsStoredDocument(), DiscoverPlaceholders(), ComputeDoWhileState(), MapPlaceholder(), LoopedReferencePaths(), RewriteComponents(), InstantiateDoWhile()]
+class PlaceholderMetadataIsReadOnly(Target):
+    """'aggregate loop references list all instances ...': the list placeholder['represents'] is what those references
+    expand to.  The scheduler's Controller._comp_get_active_predecessors reads that metadata for a placeholder node (the
+    instances plus the component producing the loop condition are its predecessors) -- and must leave it exactly as it
+    found it."""
+    prop = 'C05'
+    name = 'Controller._comp_get_active_predecessors[placeholder]'
+    file = 'python/experiment/runtime/control.py'
+    qualname = 'Controller._comp_get_active_predecessors'
+    pure = ('experiment.model.frontends.flowir.FlowIR.ParseProducerReference', 'FlowIR.ParseProducerReference',
+            'FlowIR.ParseDataReferenceFull', 'experiment.model.frontends.flowir.FlowIR.ParseDataReferenceFull')
+    compare_return = False
+    trusted = ["FlowIR.ParseProducerReference / ParseDataReferenceFull on concrete names (C09)"]
+    assumptions = ["a placeholder that represents 2 or 12 instances; the condition is produced by a looped component that is "
+                   "or is not among them; every subset of predecessors already done"]
+
+    def setup(self, c):
+        import copy
+        k = c.one_of('instances', [2, 12])
+        represents = ['stage1.%d#add' % i for i in range(k)]
+        cond_in_list = c.one_of('condition_component_is_represented', [False, True])
+        cond_comp = ('%d#add' % (k - 1)) if cond_in_list else ('%d#stop' % (k - 1))
+        placeholders = {'stage1.add': {'represents': list(represents), 'latest': represents[-1], 'DoWhileId': 'stage1.loop',
+                                       'stage': 1, 'name': 'add'}}
+        done = set(represents[:1]) if c.one_of('first_instance_done', [False, True]) else set()
+        dw = {'state': {'currentCondition': 'stage1.%s:output' % cond_comp, 'currentIteration': k - 1}}
+
+        def get_compstate(c, name):
+            c.raise_(ValueError, 'no ComponentState for %s' % name)
+        wg = Obj('workflowgraph', _placeholders=placeholders,
+                 get_document_metadata=Extern('get_document_metadata', lambda c, label, did: dw))
+        exp = Obj('experiment', experimentGraph=Obj('eg', configuration=Obj('conf', get_application_dependencies=Extern(
+            'get_application_dependencies', lambda c: []))), instanceDirectory=Obj('inst', top_level_folders=[]))
+        this = Obj('controller', log=NULLLOG, workflowGraph=wg, experiment=exp, comp_done=done, stop_executing=False,
+                   get_compstate=Extern('get_compstate', get_compstate))
+        return State(args=[this, 'stage1.add'], this=this, placeholders=placeholders, before=copy.deepcopy(placeholders),
+                     represents=represents, cond='stage1.%s' % cond_comp, done=set(done))
+
+    def ensures(self, c, st, out):
+        if out.kind == 'raise':
+            return [('no-exception', False)]
+        want = [p for p in st.represents + ([st.cond] if st.cond not in st.represents else []) if p not in st.done]
+        return [('placeholder-metadata-is-left-as-it-was', st.placeholders == st.before),
+                ('a-placeholder-waits-for-its-instances-and-the-condition', out.value.get('producers') == want and out.value.get('subjects') == [])]
+
+    def cross_compare(self, *a):
+        return []
+
+
+TARGETS = [PlaceholderMetadataIsReadOnly(), RewriteAllReferences(), GetAllLoopedIds(), NextIterationKeepsStoredDocument(), DiscoverPlaceholders(), ComputeDoWhileState(), MapPlaceholder(), LoopedReferencePaths(), RewriteComponents(), InstantiateDoWhile()]
 LEMMAS = []
